@@ -221,10 +221,11 @@ enum { FAM_LOCALP = 0, FAM_WAVELET, FAM_SEQUENCE, FAM_GLOBAL, FAM_FOURIER, NFAM 
 static const char *famname[] = {"localp", "wavelet", "sequence", "global", "fourier"};
 struct Scn {
     int fam = 0, budget = 6, batch = 1, parallel = 0;
+    int depth0 = 0;  // > 0: depth of the initial grid (Global / Fourier): its tensors then hold several points beyond the lower tensors, which the reader of the construction data has to re-associate
     int preload = 0; // > 0: the grid handed to constructSurrogate is a local polynomial grid of this depth with all its values loaded (>= 1000 points:
                      // constructSurrogate then keeps new samples in its CompleteStorage, so the checkpoints carry a non-empty sample store); budget = additional samples
-    std::string name() const{ return std::string(famname[fam]) + "/budget" + std::to_string(budget) + "/batch" + std::to_string(batch) + (parallel ? "/parallel1" : "/sequential") + (preload ? "/preloaded" + std::to_string(preload) : ""); }
-    vf::J json() const{ vf::J j; j.s("fam", famname[fam]).i("budget", budget).i("batch", batch).i("parallel", parallel).i("preload", preload); return j; }
+    std::string name() const{ return std::string(famname[fam]) + "/budget" + std::to_string(budget) + "/batch" + std::to_string(batch) + (parallel ? "/parallel1" : "/sequential") + (preload ? "/preloaded" + std::to_string(preload) : "") + (depth0 ? "/depth" + std::to_string(depth0) : ""); }
+    vf::J json() const{ vf::J j; j.s("fam", famname[fam]).i("budget", budget).i("batch", batch).i("parallel", parallel).i("preload", preload).i("depth0", depth0); return j; }
 };
 static const int DIMS = 2;
 static const int PRELOAD_DEPTH = 8;
@@ -240,8 +241,8 @@ static void make_grid(TasmanianSparseGrid &g, const Scn &s){
                            break;
         case FAM_WAVELET:  g.makeWaveletGrid(DIMS, 1, 0, 1); break;
         case FAM_SEQUENCE: g.makeSequenceGrid(DIMS, 1, 1, type_level, rule_rleja); break;
-        case FAM_GLOBAL:   g.makeGlobalGrid(DIMS, 1, 1, type_level, rule_clenshawcurtis); break;
-        default:           g.makeFourierGrid(DIMS, 1, 1, type_level); break;
+        case FAM_GLOBAL:   g.makeGlobalGrid(DIMS, 1, s.depth0 ? s.depth0 : 1, type_level, rule_clenshawcurtis); break;
+        default:           g.makeFourierGrid(DIMS, 1, s.depth0 ? s.depth0 : 1, type_level); break;
     }
 }
 template<bool par> static void construct_t(const Scn &s, TasmanianSparseGrid &g, ModelSignature m, const std::string &fn){
@@ -594,6 +595,9 @@ static std::vector<Scn> scenarios(const std::string &tier){
         // the only way to a NON-EMPTY sample store in the checkpoint: a grid that already holds >= 1000 points (quick: batch 1 only, reduced torn offsets)
         if (budget == 6) for(int batch : (th ? std::vector<int>{1, 2} : std::vector<int>{1})){ Scn s; s.fam = FAM_LOCALP; s.budget = 4; s.batch = batch; s.preload = PRELOAD_DEPTH; v.push_back(s); }
     }
+    // deeper initial grids: initial tensors with four and more points of their own, a restart in the middle of such a tensor
+    { Scn s; s.fam = FAM_GLOBAL; s.budget = 16; s.batch = 1; s.depth0 = 2; v.push_back(s); }
+    if (th){ { Scn s; s.fam = FAM_FOURIER; s.budget = 24; s.batch = 1; s.depth0 = 2; v.push_back(s); } { Scn s; s.fam = FAM_GLOBAL; s.budget = 16; s.batch = 2; s.depth0 = 2; v.push_back(s); } }
     return v;
 }
 static std::string g_scratch;
@@ -623,7 +627,7 @@ int main(int argc, char **argv){
     if (A.has("--replay")){
         std::string v = vf::slurp(A.get("--replay")), cs = vf::jget(v, "case"); Scn s; std::string fam = vf::jget(cs, "fam");
         for(int f=0; f<NFAM; f++) if (fam == famname[f]) s.fam = f;
-        s.budget = atoi(vf::jget(cs, "budget").c_str()); s.batch = atoi(vf::jget(cs, "batch").c_str()); s.parallel = atoi(vf::jget(cs, "parallel").c_str()); s.preload = atoi(vf::jget(cs, "preload").c_str());
+        s.budget = atoi(vf::jget(cs, "budget").c_str()); s.batch = atoi(vf::jget(cs, "batch").c_str()); s.parallel = atoi(vf::jget(cs, "parallel").c_str()); s.preload = atoi(vf::jget(cs, "preload").c_str()); s.depth0 = atoi(vf::jget(cs, "depth0").c_str());
         KP kp{atol(vf::jget(cs, "k").c_str()), atol(vf::jget(cs, "b").c_str())};
         set_worker_dir(); Ref R = reference_run(s);
         if (!R.ok){ vf::emit(vf::J().s("t","error").s("what", R.err)); cleanup(); return 0; }
